@@ -340,7 +340,10 @@ impl Ctx {
 
 /// Run a closure catching panics; returns Err(message) on panic. WordBudget payloads are mapped to "WORD_BUDGET".
 pub fn catch<T>(f: impl FnOnce() -> T) -> Result<T, String> {
-    match std::panic::catch_unwind(std::panic::AssertUnwindSafe(f)) {
+    IN_CATCH.with(|c| c.set(c.get() + 1));
+    let r = std::panic::catch_unwind(std::panic::AssertUnwindSafe(f));
+    IN_CATCH.with(|c| c.set(c.get().saturating_sub(1)));
+    match r {
         Ok(v) => Ok(v),
         Err(e) => {
             if let Some(b) = e.downcast_ref::<crate::rng::WordBudget>() {
@@ -358,5 +361,20 @@ pub fn catch<T>(f: impl FnOnce() -> T) -> Result<T, String> {
 
 /// Silence the default panic printer (we catch and classify panics ourselves).
 pub fn quiet_panics() {
-    std::panic::set_hook(Box::new(|_| {}));
+    if std::env::var("VERIF_SHOW_PANICS").is_ok() {
+        return;
+    }
+    // panics raised inside `catch` are classified by the caller; anything else is an infrastructure failure and is printed
+    let main_id = std::thread::current().id();
+    let _ = main_id;
+    std::panic::set_hook(Box::new(|info| {
+        let in_catch = IN_CATCH.with(|c| c.get());
+        if in_catch == 0 {
+            eprintln!("INFRA: harness panic outside a guarded call: {info}");
+        }
+    }));
+}
+
+thread_local! {
+    pub static IN_CATCH: std::cell::Cell<u32> = const { std::cell::Cell::new(0) };
 }
